@@ -358,6 +358,11 @@ impl<'a, const N: usize> SessionCodec<'a, N> {
         SessionCodec { context, cipher }
     }
 
+    /// Only Shadowsocks 2022 datagrams carry a session id and a packet id.
+    pub fn has_packet_id(&self) -> bool {
+        self.cipher.kind.is_aead_2022()
+    }
+
     pub fn encode(&self, (content, address, session): SessionPacket<N>, dst: &mut BytesMut) -> anyhow::Result<()> {
         self.cipher.encode(&self.context, &session, &address, content, dst)
     }
